@@ -12,6 +12,11 @@ def run(ctx):
     if ctx.tier != "thorough":
         # quick: every complete-handshake scenario in position "between", every fault once per position
         scenarios = [s for s in scenarios if s["pos"] == "between" or s["fault"] != "none" or s["cred"] in ("ok", "nocert", "intermediate")]
+    # the application's own tls.Config (SetTLSConfig) instead of certificate files, with and without verification of the client
+    # certificate: whatever the clients present, the server goes on serving, and the name rule reads the client's own certificate
+    scenarios += [{"rule": rule, "pass": False, "cred": cred, "fault": "none", "pos": "between", "custom": custom}
+                  for custom in ("anycert", "request", "verify") for rule in (False, True)
+                  for cred in ("ok", "selfsigned", "foreignca", "nocert", "wrongname", "expired", "intermediate")]
     if ctx.replay:
         scenarios = [json.load(open(ctx.replay))["scenario"]]
     scen = os.path.join(ctx.work, "c09_scen.jsonl")
@@ -25,13 +30,13 @@ def run(ctx):
         # the server runs inside the harness process: a Go panic / fatal error here IS the server process dying
         started = sum(1 for ln in open(trace, errors="replace") if '"ev":"scenario"' in ln) if os.path.exists(trace) else 0
         s = scenarios[max(0, started - 1)]
-        key = (s["cred"], s["fault"])
+        key = (s["cred"], s["fault"], s.get("custom", ""))
         if key not in killed:
             killed.add(key)
-            ctx.violation("the server process died during a TLS scenario (cred=%s fault=%s rule=%s pass=%s pos=%s): %s" % (
-                s["cred"], s["fault"], s["rule"], s["pass"], s["pos"], " | ".join(p.stderr.strip().split("\n")[:3])[-400:]),
+            ctx.violation("the server process died during a TLS scenario (cred=%s fault=%s rule=%s pass=%s pos=%s custom=%s): %s" % (
+                s["cred"], s["fault"], s["rule"], s["pass"], s["pos"], s.get("custom", "-"), " | ".join(p.stderr.strip().split("\n")[:3])[-400:]),
                 {"scenario": s, "stderr": p.stderr[-3000:]})
-        scenarios = [x for x in scenarios if (x["cred"], x["fault"]) != key]      # the rest is still judged
+        scenarios = [x for x in scenarios if (x["cred"], x["fault"], x.get("custom", "")) != key]      # the rest is still judged
         if not scenarios:
             break
     ctx.stage("harness")
